@@ -27,6 +27,8 @@ ASSUMPTIONS = [
 import struct
 
 S_CLOSED, S_CONNECTING, S_CLOSING, S_OPEN = 0, 1, 2, 3
+REFUSED_HS = {"server": ["version12", "nohost", "shortkey"],
+              "client": ["subprotocol", "extension", "accept", "status200"]}
 RANK = {S_CONNECTING: 0, 4: 0, S_OPEN: 1, S_CLOSING: 2, S_CLOSED: 3}
 
 LONG_REASON = "x" + ("€" * 60)    # 1+180 octets: octet 123 falls inside a 3-octet code point
@@ -99,7 +101,7 @@ def main(ctx):
               "reached:sendclose_while_closing", "reached:connecting_lost",
               "reached:deferred_onconnect_resolved_late", "reached:queued_write",
               "reached:frames_behind_peer_close", "reached:prepared_message", "reached:streaming_api",
-              "reached:stream_ended_while_not_open", "local_close_code_cases", "reason_cases", "code_cases", "code_echoed", "code_rejected",
+              "reached:stream_ended_while_not_open", "reached:refused_handshake", "local_close_code_cases", "reason_cases", "code_cases", "code_echoed", "code_rejected",
               "close_inside_open_text_message"):
         ctx.require(n)
 
@@ -143,6 +145,7 @@ class Sys:
         self.fed_texts = []          # payloads of the text messages the peer has sent, in order
         self.hs_done_len = 0
         self.hs_fed = False
+        self.hs_refused = False
         self.deferred = False        # aio: octets queued, not yet processed
         self.notes = set()
         if cfg["start"] == "open":
@@ -194,6 +197,10 @@ class Sys:
         if reading:
             if p.state == S_CONNECTING and not self.hs_done_len and not self.hs_fed:
                 ev += ["peer:handshake", "peer:garbage-handshake"]
+                # well-formed handshakes the endpoint must refuse, alone and with a frame behind
+                # them in the same read
+                for k in REFUSED_HS[self.cfg["role"]]:
+                    ev += ["refusedhs:" + k, "refusedhs+text:" + k]
             elif self.hs_done_len:
                 ev += ["peer:close1000", "peer:closeEmpty", "peer:close1005", "peer:closeBadUtf8",
                        "peer:close1octet", "peer:text", "peer:ping", "peer:op3", "peer:closeThenMore"]
@@ -300,6 +307,17 @@ class Sys:
             elif ev == "peer:garbage-handshake":
                 self.ep.feed(b"GARBAGE / HTTP/1.1\r\n\r\n")
                 self.hs_done_len = -1
+            elif ev.startswith("refusedhs"):
+                head, k = ev.split(":")
+                octets = self._refused_handshake(k)
+                if head.endswith("+text"):
+                    octets += self._frame("text")[0]
+                    self.fed_texts.append(b"hi")
+                self.hs_refused = True
+                self.hs_fed = True
+                self.hs_done_len = -1
+                self.notes.add("refused_handshake")
+                self.ep.feed(octets)
             elif ev.startswith("peer:tcp"):
                 self.conn.peer_drop(clean=ev.endswith("fin"))
             elif ev.startswith("peer:") or ev.startswith("peerq:"):
@@ -344,6 +362,28 @@ class Sys:
             # an exception from a local API call is reported to the caller, not the framework
             self.api_errors.append("%s raised %r" % (ev, e))
         self.state_trace.append(self.proto.state)
+
+    def _refused_handshake(self, k):
+        ep = self.ep
+        if self.cfg["role"] == "server":
+            if k == "version12":
+                return ep.server_request(version=b"12")
+            if k == "nohost":
+                return ep.server_request().replace(b"Host: localhost:9000\r\n", b"")
+            if k == "shortkey":
+                return ep.server_request(key=b"c2hvcnQ=")
+            raise ValueError(k)
+        self.conn.settle()
+        req = bytes(self.t.written)
+        if k == "subprotocol":
+            return ep.client_response(req, extra=b"Sec-WebSocket-Protocol: not.requested\r\n")
+        if k == "extension":
+            return ep.client_response(req, extra=b"Sec-WebSocket-Extensions: x-unknown-ext\r\n")
+        if k == "accept":
+            return ep.client_response(req.replace(b"Sec-WebSocket-Key: ", b"Sec-WebSocket-Key: A"))
+        if k == "status200":
+            return ep.client_response(req).replace(b"101 Switching Protocols", b"200 OK")
+        raise ValueError(k)
 
     def _peer_failed(self):
         # the peer already sent something invalid before: later closes are not "the peer's close"
@@ -410,7 +450,7 @@ class Sys:
               "proto_transport_none": getattr(p, "transport", 1) is None}
         return {"attrs": attrs, "tr": tr, "timers": self.conn.pending_timers(),
                 "frac": round(self.conn.now() % 1.0, 3), "log": self.log_abstraction(),
-                "deferred": self.deferred, "hs": self.hs_done_len > 0,
+                "deferred": self.deferred, "hs": self.hs_done_len > 0, "hs_refused": self.hs_refused,
                 "dconn": (self.connect_future is not None, self.connect_resolved),
                 "escapes": len(self.conn.escapes), "api_errors": len(self.api_errors)}
 
@@ -502,6 +542,10 @@ def monitors(s, ev):
         late = [e[0] for e in rec[s.rec_len_at_first_valid_close:] if e[0] in ("onMessage", "onPing", "onPong")]
         if late:
             bad.append(("delivery-after-peer-close-frame", str(late)))
+    # M5d a refused opening handshake never opens the connection
+    if s.hs_refused:
+        if p.state in (S_OPEN, S_CLOSING) or any(n in names for n in ("onOpen", "onMessage", "onPing")):
+            bad.append(("open-after-refused-handshake", "state=%s callbacks=%s" % (p.state, names)))
     # M5c whatever is delivered is what the peer sent: each delivered message is one of the peer's
     # messages, intact, in order (also while closing)
     got = [bytes(e[1]) for e in rec if e[0] == "onMessage"]
